@@ -43,6 +43,9 @@ fn churn(args: &[String]) {
     let cycles: usize = arg(args, "--cycles").and_then(|s| s.parse().ok()).unwrap_or(10000);
     let early_drop = args.iter().any(|a| a == "--early-drop");
     let traffic = args.iter().any(|a| a == "--traffic");
+    // every receiver is dropped first; the remaining sender keeps operating (its sends are refused) while sender
+    // handles are cloned and dropped
+    let no_recv = args.iter().any(|a| a == "--no-receivers");
     let mut out = open_w(arg(args, "--out")).unwrap_or_else(|| Box::new(std::io::sink()));
     rt::enter(None);
     {
@@ -54,7 +57,8 @@ fn churn(args: &[String]) {
         st.retired.reserve(1 << 14);
     }
     let name = format!("churn-{}{}-c{}{}{}", family, if fut { "F" } else { "" }, cap,
-                       if early_drop { "-early" } else { "" }, if traffic { "-traffic" } else { "" });
+                       if early_drop { "-early" } else { "" },
+                       if traffic { "-traffic" } else if no_recv { "-norecv" } else { "" });
     writeln!(out, "{}", json!({"e":"reset","scn":name.clone(),"fl":family,"fut":fut,"cap":cap,"wait":"busy","run":1})).unwrap();
     for round in 0..2 {
         let blocks0 = rt::rt().lock().allocs.len();
@@ -70,7 +74,38 @@ fn churn(args: &[String]) {
         let mut traffic_pair = if traffic { Some((tx.dup().unwrap(), rx.dup().unwrap())) } else { None };
         let mut v = 1u64;
         let mut next_ck = 100usize;
+        let mut dummy = None;
+        if no_recv {
+            // a value stays queued when the last receiver goes
+            let _ = tx.try_send(P::new(v));
+            v += 1;
+            // (the variable keeps a receiver of an unrelated queue so that the code below stays the same)
+            let (dtx, drx) = handles::create(&family, fut, cap, "busy", Some((0, 0)));
+            let gone = std::mem::replace(&mut rx, drx);
+            drop(gone);
+            dummy = Some(dtx);
+        }
         for i in 1..=cycles {
+            if no_recv {
+                let t2 = tx.dup().unwrap();
+                let _ = t2.try_send(P::new(v));
+                v += 1;
+                let t3 = t2.dup().unwrap();
+                drop(t2);
+                let _ = tx.try_send(P::new(v));
+                v += 1;
+                drop(t3);
+                if i == next_ck || i == cycles {
+                    let st = rt::rt().lock();
+                    let blocks = st.allocs.len() as i64 - blocks0 as i64;
+                    let hook_bytes: usize = st.allocs.values().map(|a| a.0).sum();
+                    drop(st);
+                    if round == 1 { writeln!(out, "{}", json!({"e":"ckpt","k":i,"blocks":blocks,"hook_bytes":hook_bytes,
+                                               "heap":LIVE_BYTES.load(AO::Relaxed)})).unwrap(); }
+                    next_ck *= 10;
+                }
+                continue;
+            }
             match &rx {
                 H::BR(_) | H::BFR(_) => {
                     let mut a = rx.add_stream().unwrap();
@@ -125,6 +160,7 @@ fn churn(args: &[String]) {
         drop(traffic_pair);
         drop(tx);
         drop(rx);
+        drop(dummy);
         let heap1 = LIVE_BYTES.load(AO::Relaxed);
         let live = rt::rt().lock().allocs.len() as i64 - blocks0 as i64;
         if round == 1 { writeln!(out, "{}", json!({"e":"end","left":0,"live":live,"live_bytes":0,"outcome":"Done",
